@@ -52,3 +52,31 @@ Fixpoint check_trace (info : list vtr -> vtr) (n : nat) (tol : Q) (s : pstate) (
 (* the whole run of the current tree's buffer pair against the observations *)
 Definition check_run (n c : nat) (g tol : Q) (xs : list vtr) (obs : list obs1) : bool :=
   check_trace (n_step_info g) n tol (pinit c) xs obs.
+
+(* several rollouts: the observations belong to the Step events *)
+Fixpoint check_trace_ev (info : list vtr -> vtr) (n : nat) (tol : Q) (s : pstate) (evs : list ev) (obs : list obs1) : bool :=
+  match evs with
+  | [] => match obs with [] => true | _ => false end
+  | Step t :: evs' =>
+      match obs with
+      | o :: obs' => let s' := pair_step info n s t in check_one tol s' o && check_trace_ev info n tol s' evs' obs'
+      | [] => false
+      end
+  | Reset b :: evs' => check_trace_ev info n tol (ev_step info n s (Reset b)) evs' obs
+  end.
+
+Definition check_run_ev (n c : nat) (g tol : Q) (evs : list ev) (obs : list obs1) : bool :=
+  check_trace_ev (n_step_info g) n tol (pinit c) evs obs.
+
+(* Sampler(n-step buffer).sample(idxs) after the run, with a flat and with a column index tensor:
+   leading shapes (model: reshape(-1)) and rows *)
+Definition shape_ok (idx_shape got : list nat) : bool :=
+  list_eqb Nat.eqb got (from_indices_shape_repaired idx_shape).
+
+Definition check_from_indices (n c : nat) (g tol : Q) (xs : list vtr) (idx : list nat)
+    (flat_shape : list nat) (flat_rows : list (option cell))
+    (col_shape : list nat) (col_rows : list (option cell)) : bool :=
+  let s := pair_run (n_step_info g) n c xs in
+  shape_ok [length idx] flat_shape && shape_ok [length idx; 1%nat] col_shape &&
+  list_eqb (opt_eqb (cell_eqb tol)) flat_rows (gather (store (nbuf s)) idx) &&
+  list_eqb (opt_eqb (cell_eqb tol)) col_rows (gather_col (store (nbuf s)) (map (fun i => [i]) idx)).
